@@ -185,6 +185,9 @@ def run(ctx):
                 objs += [("/docs/two.pyg", "file")]
                 # executable by its mode only: the kernel refuses to run it (ENOEXEC) when the script handler tries
                 tree.write("docs/notaprogram", b"data with the x bit set, not a program\n", mode=0o755)
+                # a program whose answer is its search request (what one client asked must not reach the next)
+                tree.write("find.sh", b"#!/bin/sh\necho \"query: ${SEARCHREQUEST:-none given}\"\n", mode=0o755)
+                objs += [("/find.sh", "file")]
                 kw["handlers.ZIP.ZIPHandler|enabled"] = "true"
             cfg = pyg.make_config(tree.root, pyg.FULL_HANDLERS if listname == "full" else None, **kw)
             pristine = tree.tmp + "-pristine"
@@ -229,6 +232,10 @@ def run(ctx):
                          (b"/a\0b\r\n", False), (b"/a\0b\t+\r\n", False), (b"GET /a%00b HTTP/1.0\r\n\r\n", False), (b"gemini://h/a%00b\r\n", True),
                          (b"h /a%00b 0\r\n", False), (b"/docs/a\0.txt\t!\r\n", False), (b"/script.sh\ta\0b\r\n", False),
                          (b"GET /script.sh?searchrequest=a%00b HTTP/1.0\r\n\r\n", False), (b"h /script.sh 3\r\na\0b", False),
+                         # a program asked without a query, with one, and without again
+                         (b"/find.sh\r\n", False), (b"/find.sh\tsecret words of another client\r\n", False), (b"/find.sh\r\n", False),
+                         (b"GET /find.sh?searchrequest=over+http HTTP/1.0\r\n\r\n", False), (b"GET /find.sh HTTP/1.0\r\n\r\n", False),
+                         (b"h /find.sh 7\r\nspartan", False), (b"h /find.sh 0\r\n", False),
                          # two scripts with the same modification second, one after the other
                          (b"/hello.pyg\r\n", False), (b"/docs/two.pyg\r\n", False), (b"/hello.pyg\t!\r\n", False), (b"/docs/two.pyg\t+\r\n", False)]
                 requests = fixed + requests
